@@ -447,6 +447,158 @@ func templates() []tmpl {
 			return c
 		},
 		func(g *vlib.Rng, fl uint32) *Case {
+			// SEVERAL signature checks in one script with OP_CODESEPARATORs (executed, and inside a branch that is not taken)
+			// between them: every signature commits to the script code that starts after the last EXECUTED separator in
+			// front of ITS check (tapscript: to that separator's opcode position). One signature in four is made with the
+			// script code of another check instead (invalid wherever the two script codes differ).
+			wrap := g.Intn(4) // bare, P2SH, P2WSH, tapscript
+			tap := wrap == 3
+			if wrap < 2 && g.Intn(4) != 0 {
+				fl &^= script.VER_CONST_SCRIPTCODE // (policy) rejects OP_CODESEPARATOR in non-segwit scripts outright
+			}
+			nchk := 2 + g.Intn(3)
+			type chk struct {
+				keys  []*Key
+				tkeys []*TapKey
+				multi bool
+				m     int // signatures; keys first .. first+m-1 sign
+				first int
+				start int    // byte offset of the script code of this check
+				pos   uint32 // opcode position of the last executed separator in front of it
+			}
+			var chks []chk
+			var scr []byte
+			start, pos, nop := 0, uint32(0xffffffff), uint32(0)
+			for i := 0; i < nchk; i++ {
+				last := i == nchk-1
+				if g.Intn(5) == 0 {
+					scr = append(scr, 0x00, 0x63, 0xab, 0x68) // 0 IF CODESEPARATOR ENDIF
+					nop += 4
+				}
+				if g.Intn(5) < 3 {
+					scr = append(scr, 0xab)
+					pos, start = nop, len(scr)
+					nop++
+				}
+				k := chk{m: 1, start: start, pos: pos}
+				n := 0 // 0: CHECKSIG(VERIFY)
+				if !tap && g.Intn(5) < 3 {
+					k.multi = true
+					n = 1 + g.Intn(3)
+					k.m = 1 + g.Intn(n)
+					k.first = g.Intn(n - k.m + 1)
+				}
+				for j := 0; j < n || j == 0; j++ {
+					if tap {
+						k.tkeys = append(k.tkeys, newTapKey(g))
+					} else {
+						k.keys = append(k.keys, newKey(g))
+					}
+				}
+				switch {
+				case tap:
+					scr = append(scr, pushData(k.tkeys[0].X)...)
+					nop++
+				case n == 0:
+					scr = append(scr, pushData(k.keys[0].Pub)...)
+					nop++
+				default:
+					scr = append(scr, pushNum(int64(k.m))...)
+					for _, key := range k.keys {
+						scr = append(scr, pushData(key.Pub)...)
+					}
+					scr = append(scr, pushNum(int64(n))...)
+					nop += uint32(n) + 2
+				}
+				op := byte(0xac) // CHECKSIG
+				if n > 0 {
+					op = 0xae
+				}
+				if !last {
+					op++ // …VERIFY
+				}
+				scr = append(scr, op)
+				nop++
+				chks = append(chks, k)
+			}
+			var c *Case
+			var lh []byte
+			var ctl []byte
+			switch wrap {
+			case 0:
+				c = base1("gen-multicheck-bare", scr, 8000, fl)
+			case 1:
+				c = base1("gen-multicheck-p2sh", p2sh(scr), 8000, fl)
+			case 2:
+				c = base1("gen-multicheck-p2wsh", p2wsh(scr), 8000, fl)
+			default:
+				tk := newTapKey(g)
+				lh = tapLeaf(0xc0, scr)
+				qx, par, _ := tapOutput(tk.X, lh)
+				c0 := byte(0xc0)
+				if par {
+					c0 |= 1
+				}
+				ctl = cat([]byte{c0}, tk.X)
+				c = base1("gen-multicheck-tapscript", witprog(1, qx), 8000, fl)
+			}
+			ht := byte(g.Pick(1, 1, 1, 2, 3, 0x81, 0x83))
+			same := g.Bool()
+			wrong := -1
+			if g.Intn(4) == 0 {
+				wrong = g.Intn(nchk)
+			}
+			items := make([][][]byte, nchk) // per check, bottom first
+			for i, k := range chks {
+				from := k
+				if i == wrong {
+					from = chks[(i+1+g.Intn(nchk-1))%nchk]
+					c.Kind += ":other-check's-script-code"
+				}
+				if !same {
+					ht = byte(g.Pick(1, 1, 2, 3, 0x81, 0x82, 0x83))
+				}
+				if tap {
+					h := ht
+					if g.Intn(4) == 0 {
+						h = 0
+					}
+					items[i] = [][]byte{signTap(c, g, k.tkeys[0].Priv, nil, lh, from.pos, h, true)}
+					continue
+				}
+				if k.multi {
+					items[i] = append(items[i], []byte{}) // the extra element OP_CHECKMULTISIG pops
+				}
+				for j := k.first; j < k.first+k.m; j++ {
+					if wrap == 2 {
+						items[i] = append(items[i], signWitV0(c, scr[from.start:], k.keys[j], ht))
+					} else {
+						items[i] = append(items[i], signLegacy(c, scr[from.start:], k.keys[j], ht))
+					}
+				}
+			}
+			var st [][]byte
+			for i := nchk - 1; i >= 0; i-- {
+				st = append(st, items[i]...)
+			}
+			switch wrap {
+			case 0, 1:
+				var sg []byte
+				for _, it := range st {
+					sg = append(sg, pushData(it)...)
+				}
+				if wrap == 1 {
+					sg = append(sg, pushData(scr)...)
+				}
+				c.setSig(sg)
+			case 2:
+				c.setWit(append(st, scr)...)
+			default:
+				c.setWit(append(st, scr, ctl)...)
+			}
+			return c
+		},
+		func(g *vlib.Rng, fl uint32) *Case {
 			// free-form: random pushes in scriptSig, random script in scriptPubKey (ending in OP_1 half of the time)
 			var sig []byte
 			for i := g.Intn(5); i > 0; i-- {
